@@ -39,6 +39,14 @@ func c11paths() []c11path {
 		}
 	}
 	rec(nil)
+	if maxJ < 3 {
+		// a few three-event scripts in the quick tier: something is delivered to the session, then it stays silent
+		for _, sub := range []string{"sub-a", "sub-b#"} {
+			for _, idle := range []string{"idle-1s", "idle-3.5s", "idle-0.9K", "idle-1.4K"} {
+				scripts = append(scripts, []string{sub, "recv", idle})
+			}
+		}
+	}
 	causes1 := []string{"none", "disconnect", "drop", "silence", "second-connect", "displaced-same-node", "subscribe-and-drop"}
 	causes2 := append(append([]string{}, causes1...), "displaced-other-node", "leave")
 	// keep-alive values at the edges of the 16-bit field: only short absolute idles (1 s, 3.5 s), pings and subscriptions
@@ -233,6 +241,8 @@ func TestC11Lifecycle(t *testing.T) {
 				ended := true
 				expectClose := true
 				lateFromDead := map[string]bool{}
+				lateSessionKept := false
+				lateSubKept := map[string]bool{}
 				kfLate := func(key string) string {
 					if p.Cause == "leave" && lateFromDead[key] {
 						return "C11-late-gossip-from-failed-node"
@@ -352,13 +362,20 @@ func TestC11Lifecycle(t *testing.T) {
 						for _, s := range v.Sessions {
 							if strings.HasPrefix(s, sid+" ") {
 								violKF(kfLate("session:"+sid), "c11-session-record-left:"+p.Cause, "after the session ended and all gossip was delivered, node %d still lists its record: %s", n.ID, s)
-								return
+								if kfLate("session:"+sid) == "" {
+									return
+								}
+								lateSessionKept = true // the known finding does not excuse anything else: keep judging
 							}
 						}
 						for _, s := range v.Subscriptions {
 							if strings.HasPrefix(s, sid+" ") {
-								violKF(kfLate("sub:"+strings.Fields(s)[0]+"|"+strings.Fields(s)[1]), "c11-subscription-left:"+p.Cause, "after the session ended and all gossip was delivered, node %d still lists its subscription: %s", n.ID, s)
-								return
+								k := kfLate("sub:" + strings.Fields(s)[0] + "|" + strings.Fields(s)[1])
+								violKF(k, "c11-subscription-left:"+p.Cause, "after the session ended and all gossip was delivered, node %d still lists its subscription: %s", n.ID, s)
+								if k == "" {
+									return
+								}
+								lateSubKept[strings.Fields(s)[0]+"|"+strings.Fields(s)[1]] = true
 							}
 						}
 						for _, s := range v.LocalSessions {
@@ -381,6 +398,9 @@ func TestC11Lifecycle(t *testing.T) {
 						sessions[s.SessionID] = s.Peer
 					}
 					for _, s := range n.DState.Subscriptions().All() {
+						if lateSubKept[s.SessionID+"|"+string(s.Pattern)] || (lateSessionKept && s.SessionID == sid && lateFromDead["sub:"+s.SessionID+"|"+string(s.Pattern)]) {
+							continue // already reported as the known finding
+						}
 						peer, ok := sessions[s.SessionID]
 						if !ok {
 							viol("c11-orphan-subscription:"+p.Cause, "node %d lists subscription %s %s whose session is not listed", n.ID, s.SessionID, s.Pattern)
